@@ -1,6 +1,116 @@
 """ Translator: regenerates lean/Supv/Gen/*.lean from the CURRENT source of supvisors (data and call structure only).
-    generate(repo, outdir) -> list of (anchor, ok, detail); files are rewritten only when their content changes. """
-import os, sys, ast
+    generate(repo, outdir) -> list of (anchor, ok, detail); files are rewritten only when their content changes.
+
+    The source tree is read in a SUBPROCESS (fresh interpreter, `repo` first on sys.path) so that the tables are those of
+    the working tree named by `repo`, whatever the calling process has already imported. """
+import os, sys, ast, json, subprocess
+
+PROBE = r'''
+import sys, json, ast, inspect
+repo = sys.argv[1]
+sys.path.insert(0, repo)
+import supvisors, os
+assert os.path.realpath(os.path.dirname(supvisors.__file__)).startswith(os.path.realpath(repo)), supvisors.__file__
+out = {}
+def anchor(name, fn):
+    try:
+        out[name] = {'ok': True, 'value': fn()}
+    except Exception as e:
+        out[name] = {'ok': False, 'value': None, 'detail': f'{type(e).__name__}: {e}'}
+
+from supvisors import ttypes
+def enum(cls): return [[m.name, m.value] for m in cls]
+for nm in ['SupvisorsInstanceStates', 'SupvisorsStates', 'ApplicationStates', 'StartingStrategies', 'ConciliationStrategies',
+           'StartingFailureStrategies', 'RunningFailureStrategies', 'SupvisorsFailureStrategies', 'DistributionRules',
+           'SynchronizationOptions', 'AuthorizationTypes', 'ProcessRequestResult']:
+    anchor('enum:' + nm, lambda nm=nm: enum(getattr(ttypes, nm)))
+anchor('WORKING_STATES', lambda: [s.value for s in ttypes.WORKING_STATES])
+anchor('CLOSING_STATES', lambda: [s.value for s in ttypes.CLOSING_STATES])
+def fsm_table():
+    from supvisors.statemachine import FiniteStateMachine
+    return [[a.value, [b.value for b in bs]] for a, bs in FiniteStateMachine._Transitions.items()]
+anchor('FiniteStateMachine._Transitions', fsm_table)
+def fsm_classes():
+    from supvisors.statemachine import FiniteStateMachine
+    return [[a.value, c.__name__] for a, c in FiniteStateMachine._StateInstances.items()]
+anchor('FiniteStateMachine._StateInstances', fsm_classes)
+def inst_table():
+    from supvisors.instancestatus import SupvisorsInstanceStatus
+    return [[a.value, [b.value for b in bs]] for a, bs in SupvisorsInstanceStatus._Transitions.items()]
+anchor('SupvisorsInstanceStatus._Transitions', inst_table)
+def stable_states():
+    from supvisors.statemodes import StateModes
+    return [s.value for s in StateModes.STABLE_STATES]
+anchor('StateModes.STABLE_STATES', stable_states)
+def active_states():
+    # the list literal inside SupvisorsInstanceStatus.has_active_state
+    from supvisors.instancestatus import SupvisorsInstanceStatus
+    src = inspect.getsource(SupvisorsInstanceStatus.has_active_state)
+    import textwrap
+    tree = ast.parse(textwrap.dedent(src))
+    names = [n.attr for n in ast.walk(tree) if isinstance(n, ast.Attribute) and isinstance(n.value, ast.Name)
+             and n.value.id == 'SupvisorsInstanceStates']
+    assert names, 'no SupvisorsInstanceStates literal found'
+    return [ttypes.SupvisorsInstanceStates[x].value for x in names]
+anchor('SupvisorsInstanceStatus.has_active_state', active_states)
+def proc_states():
+    from supervisor import states
+    return {'running': [int(s) for s in states.RUNNING_STATES], 'stopped': [int(s) for s in states.STOPPED_STATES]}
+anchor('supervisor.states', proc_states)
+def consts():
+    from supvisors.commander import ProcessCommand
+    from supvisors.options import SupvisorsOptions
+    from supvisors.sparser import Parser
+    from supvisors.utils import TICK_PERIOD
+    return {'DEFAULT_TICK_TIMEOUT': ProcessCommand.DEFAULT_TICK_TIMEOUT, 'SYNCHRO_TIMEOUT_MIN': SupvisorsOptions.SYNCHRO_TIMEOUT_MIN,
+            'SYNCHRO_TIMEOUT_MAX': SupvisorsOptions.SYNCHRO_TIMEOUT_MAX,
+            'INACTIVITY_TICKS_MIN': SupvisorsOptions.INACTIVITY_TICKS_MIN, 'INACTIVITY_TICKS_MAX': SupvisorsOptions.INACTIVITY_TICKS_MAX,
+            'LOOP_CHECK': Parser.LOOP_CHECK, 'TICK_PERIOD': TICK_PERIOD}
+anchor('constants', consts)
+
+# ---- AST anchors: comparison operators / picks at named decision points (G6)
+import textwrap
+def fn_ast(obj): return ast.parse(textwrap.dedent(inspect.getsource(obj)))
+def cmp_ops(obj):
+    return [type(op).__name__ for n in ast.walk(fn_ast(obj)) if isinstance(n, ast.Compare) for op in n.ops]
+def is_inactive_ops():
+    from supvisors.instancestatus import SupvisorsInstanceStatus
+    return cmp_ops(SupvisorsInstanceStatus.is_inactive)
+anchor('ast:is_inactive', is_inactive_ops)
+def is_checking_ops():
+    from supvisors.instancestatus import SupvisorsInstanceStatus
+    return cmp_ops(SupvisorsInstanceStatus.is_checking)
+anchor('ast:is_checking', is_checking_ops)
+def set_state_writers():
+    # `state_modes.state = ...` must only occur inside FiniteStateMachine.set_state
+    import supvisors.statemachine as sm
+    tree = ast.parse(open(sm.__file__).read())
+    writers = []
+    for cls in [n for n in tree.body if isinstance(n, ast.ClassDef)]:
+        for fn in [n for n in cls.body if isinstance(n, ast.FunctionDef)]:
+            for n in ast.walk(fn):
+                if isinstance(n, ast.Assign):
+                    for t in n.targets:
+                        if isinstance(t, ast.Attribute) and t.attr == 'state' and isinstance(t.value, ast.Attribute) \
+                                and t.value.attr == 'state_modes':
+                            writers.append(f'{cls.name}.{fn.name}')
+    return writers
+anchor('ast:fsm_state_writers', set_state_writers)
+def load_cap():
+    # the constant in `is_loading_valid`-like checks of strategy.py: `... <= 100`
+    import supvisors.strategy as st
+    tree = ast.parse(open(st.__file__).read())
+    res = []
+    for fn in [n for n in ast.walk(tree) if isinstance(n, ast.FunctionDef) and n.name in ('is_loading_valid',)]:
+        for n in ast.walk(fn):
+            if isinstance(n, ast.Compare):
+                consts = [c.value for c in [n.left] + n.comparators if isinstance(c, ast.Constant)]
+                res.append([[type(op).__name__ for op in n.ops], consts])
+    assert res, 'is_loading_valid not found'
+    return res
+anchor('ast:is_loading_valid', load_cap)
+print(json.dumps(out))
+'''
 
 
 def write_if_changed(path, text):
@@ -12,8 +122,75 @@ def write_if_changed(path, text):
     return False
 
 
+def probe(repo):
+    r = subprocess.run([sys.executable, '-c', PROBE, repo], capture_output=True, text=True, timeout=120)
+    if r.returncode != 0:
+        raise RuntimeError('translator probe failed: ' + r.stderr[-800:])
+    return json.loads(r.stdout.strip().split('\n')[-1])
+
+
+def lean_list(xs):
+    return '[' + ', '.join(str(x) for x in xs) + ']'
+
+
+def lean_table(t):
+    return '[' + ', '.join(f'({a}, {lean_list(bs)})' for a, bs in t) + ']'
+
+
 def generate(repo, outdir):
-    results = []
+    data = probe(repo)
+    results = [(k, v['ok'], v.get('detail', 'extracted')) for k, v in data.items()]
+    def val(k, default):
+        v = data.get(k)
+        return v['value'] if v and v['ok'] else default
+    L = ['/-! GENERATED by tools/extract.py from the current /repo source on every run — do not edit. -/', '',
+         'namespace Supv.Gen', '']
+    for nm in ['SupvisorsInstanceStates', 'SupvisorsStates', 'ApplicationStates', 'StartingStrategies', 'ConciliationStrategies',
+               'StartingFailureStrategies', 'RunningFailureStrategies', 'SupvisorsFailureStrategies', 'DistributionRules',
+               'SynchronizationOptions', 'AuthorizationTypes', 'ProcessRequestResult']:
+        e = val('enum:' + nm, [])
+        L.append(f'/-- `ttypes.{nm}`: member names and values, in declaration order -/')
+        L.append(f'def enum{nm} : List (String × Nat) := [' + ', '.join(f'("{n}", {v})' for n, v in e) + ']')
+    L.append('')
+    L.append('/-- `FiniteStateMachine._Transitions` (state value ↦ allowed next state values) -/')
+    L.append(f"def fsmTable : List (Nat × List Nat) := {lean_table(val('FiniteStateMachine._Transitions', []))}")
+    L.append('/-- `SupvisorsInstanceStatus._Transitions` -/')
+    L.append(f"def instTable : List (Nat × List Nat) := {lean_table(val('SupvisorsInstanceStatus._Transitions', []))}")
+    L.append(f"def workingStates : List Nat := {lean_list(val('WORKING_STATES', []))}")
+    L.append(f"def closingStates : List Nat := {lean_list(val('CLOSING_STATES', []))}")
+    L.append('/-- `StateModes.STABLE_STATES` -/')
+    L.append(f"def stableStates : List Nat := {lean_list(val('StateModes.STABLE_STATES', []))}")
+    L.append('/-- the list literal of `SupvisorsInstanceStatus.has_active_state` -/')
+    L.append(f"def activeStates : List Nat := {lean_list(val('SupvisorsInstanceStatus.has_active_state', []))}")
+    ps = val('supervisor.states', {'running': [], 'stopped': []})
+    L.append(f"def procRunningStates : List Nat := {lean_list(ps['running'])}")
+    L.append(f"def procStoppedStates : List Nat := {lean_list(ps['stopped'])}")
+    cs = val('constants', {})
+    for k in ['DEFAULT_TICK_TIMEOUT', 'SYNCHRO_TIMEOUT_MIN', 'SYNCHRO_TIMEOUT_MAX', 'INACTIVITY_TICKS_MIN', 'INACTIVITY_TICKS_MAX',
+              'LOOP_CHECK', 'TICK_PERIOD']:
+        name = ''.join(w.capitalize() for w in k.lower().split('_')); name = name[0].lower() + name[1:]
+        L.append(f'def {name} : Nat := {cs.get(k, 0)}')
+    L.append('/-- comparison operators of `is_inactive` (expected: a single strict `>`) -/')
+    L.append('def isInactiveOps : List String := [' + ', '.join(f'"{x}"' for x in val('ast:is_inactive', [])) + ']')
+    L.append('def isCheckingOps : List String := [' + ', '.join(f'"{x}"' for x in val('ast:is_checking', [])) + ']')
+    L.append('/-- methods of statemachine.py that assign `state_modes.state` (expected: only `FiniteStateMachine.set_state`) -/')
+    L.append('def fsmStateWriters : List String := [' + ', '.join(f'"{x}"' for x in val('ast:fsm_state_writers', [])) + ']')
+    lc = val('ast:is_loading_valid', [])
+    L.append('/-- comparisons inside `is_loading_valid`: (operators, constants) -/')
+    L.append('def loadingValidCmps : List (List String × List Nat) := [' +
+             ', '.join('([' + ', '.join(f'"{o}"' for o in ops) + '], ' + lean_list([c for c in consts if isinstance(c, int)]) + ')'
+                       for ops, consts in lc) + ']')
+    L += ['', 'end Supv.Gen', '']
+    write_if_changed(os.path.join(outdir, 'Tables.lean'), '\n'.join(L))
+    # optional extra generators (one module per property family)
+    here = os.path.dirname(os.path.abspath(__file__))
+    if os.path.exists(os.path.join(here, 'extract_rpc.py')):
+        sys.path.insert(0, here)
+        try:
+            import extract_rpc
+            results += list(extract_rpc.generate_rpc(repo, outdir))
+        except Exception as e:
+            results.append(('rpc-guards', False, f'{type(e).__name__}: {e}'))
     return results
 
 
